@@ -195,6 +195,14 @@ func hDate(c M) M {
 	o := M{"ok": true, "y": d.Year(), "m": d.Month(), "d": d.Day(), "str": d.ToString(), "wd": d.Weekday()}
 	o["alt"] = d.ToStringWithFormat(klog.DateFormat{UseDashes: !d.Format().UseDashes})
 	try(func() { d.PlusDays(1) }) // (panics by contract at the last representable date)
+	// date arithmetic over short and very long distances: [n, yyyymmdd of d+n] (-1: outside the calendar)
+	plus := [][]int{}
+	for _, n := range []int{1, -1, 7, -25, 365, 36524, 106751, 106752, -106752, 146097, -146097, 1000000, -3000000, 3652424} {
+		res := -1
+		try(func() { res = ymd(d.PlusDays(n)) })
+		plus = append(plus, []int{n, res})
+	}
+	o["plus"] = plus
 	d.WeekNumber()
 	o["str2"] = d.ToString()
 	return o
